@@ -4,7 +4,8 @@ import Cppcheck.Model.Infer
 import Cppcheck.Model.Trunc
 import Cppcheck.Model.MiniC
 import Cppcheck.Model.VFValidator
-open Cppcheck.Wire Cppcheck.Calc Cppcheck.Infer Cppcheck.Trunc
+open Cppcheck.Wire Cppcheck.Calc Cppcheck.Infer
+open Cppcheck.Trunc (truncateIntValue)
 
 /-
 C01 line-protocol driver.  ops (stage 1, transfer functions):
